@@ -1078,6 +1078,9 @@ decl(struct scope *s, struct func *f)
 					tentativedefnsend = &d->next;
 				}
 				break;
+			} else if (d->linkage != LINKNONE && d->defined) {
+				/* thread-local object that has already been emitted */
+				break;
 			}
 			defineobj(d, init, hasinit, f);
 			break;
